@@ -600,7 +600,7 @@ func main() {
 		panic(err)
 	}
 	defer os.RemoveAll(root)
-	n := fl.Count(22, 300)
+	n := fl.Count(22, 200)
 	distinct := map[string]bool{}
 	emit := func(id int, name string, cfg sysCfg, fast bool, x *runner) {
 		it := make([]string, len(x.evs))
